@@ -30,6 +30,7 @@ type Alpha struct {
 	SaveCS        bool  // SaveChangeSet with one of a few fixed change sets (only when nothing is pending)
 	ReadAll       bool  // one macro read-only operation that reads everything (warms node and fast caches)
 	Exports       bool  // open (and fully read) / close an export of a retained version: pins the version
+	ColdDelTo     bool  // pruning by DeleteVersionsTo on a fresh instance that has not loaded anything, then Load
 	ColdDelFrom   bool  // rollback by DeleteVersionsFrom on a fresh instance that has not loaded anything, then Load
 	Hold          bool  // once per history: keep the ImmutableTree of every retained version and re-read it later
 }
@@ -162,6 +163,11 @@ func (a Alpha) Ops(w *World, s *Spec) []Op {
 	if a.Import {
 		for _, v := range m.Versions() {
 			ops = append(ops, Op{Kind: OpImport, Ver: v}, Op{Kind: OpImport, Ver: v, Arg: 1})
+		}
+	}
+	if a.ColdDelTo && m.Latest > 0 && w.VS != nil {
+		for _, n := range m.VersionCandidates(0) {
+			ops = append(ops, Op{Kind: OpColdDelTo, Ver: n})
 		}
 	}
 	if a.ColdDelFrom && m.Latest > 0 && w.VS != nil {
